@@ -10,6 +10,8 @@ import (
 	"bytes"
 	"context"
 	"fmt"
+	"net/http"
+	"net/http/httptest"
 	"strings"
 	"testing"
 
@@ -124,11 +126,21 @@ func TestC18(t *testing.T) {
 					if fm || len(f.filesFor(vlib.Sha(content))) > 0 {
 						rep.Violate(key+" oversize item stored", id, replay)
 					}
+					if res.acKey != "" {
+						// nothing is stored: the refused ActionResult that carried the blob is not served either
+						ctx, cancel := ctxT()
+						_, gerr := f.ac.GetActionResult(ctx, &pb.GetActionResultRequest{ActionDigest: &pb.Digest{Hash: res.acKey, SizeBytes: 42}})
+						cancel()
+						if gerr == nil || len(f.filesFor(res.acKey)) > 0 {
+							rep.Violate(key+" refused upload left its ActionResult behind", fmt.Sprintf("%s: GetActionResult err=%v files=%v", id, gerr, f.filesFor(res.acKey)), replay)
+						}
+					}
 					rep.Nontrivial(id)
 					rep.Outcome(path + " " + cmpClass(n, L) + " -> " + res.status)
 				}
 			}
 		}
+		c18ActionEntries(rep, f, mode, L)
 		for _, p := range f.invariants() {
 			rep.Violate("C18 cache inconsistent "+genericKey(p), p, nil)
 		}
@@ -138,6 +150,66 @@ func TestC18(t *testing.T) {
 		f.close()
 	}
 	rep.Sample(map[string]interface{}{"limits": limits, "sizes": "L-1, L, L+1, 4L", "paths": writePaths})
+}
+
+// c18ActionEntries: the action-cache entry itself is an item: an ActionResult
+// whose serialised size is L-1, L, L+1, 4L (padded through the worker name),
+// through gRPC UpdateActionResult and HTTP PUT /ac (protobuf).
+func c18ActionEntries(rep *vlib.Report, f *fx, mode string, L int64) {
+	if L < 64 {
+		return
+	}
+	for _, front := range []string{"grpc", "http"} {
+		for _, n := range []int64{L - 1, L, L + 1, 4 * L} {
+			rep.Eval()
+			ar := &pb.ActionResult{ExitCode: 7, ExecutionMetadata: &pb.ExecutedActionMetadata{Worker: "w"}}
+			// pad the worker name until the serialised message has exactly n bytes
+			pad := int(n) - proto.Size(ar)
+			for tries := 0; tries < 8 && pad != 0; tries++ {
+				cur := len(ar.ExecutionMetadata.Worker)
+				if cur+pad < 1 {
+					break
+				}
+				ar.ExecutionMetadata.Worker = strings.Repeat("w", cur+pad)
+				pad = int(n) - proto.Size(ar)
+			}
+			if int64(proto.Size(ar)) != n {
+				rep.Skip(fmt.Sprintf("cannot build an ActionResult of exactly %d bytes", n))
+				continue
+			}
+			key := vlib.Sha([]byte(fmt.Sprintf("c18/action/%s/%d/%s/%d", mode, L, front, n)))
+			var ok bool
+			var st string
+			if front == "grpc" {
+				ctx, cancel := ctxT()
+				_, err := f.ac.UpdateActionResult(ctx, &pb.UpdateActionResultRequest{ActionDigest: &pb.Digest{Hash: key, SizeBytes: 42}, ActionResult: ar})
+				cancel()
+				ok, st = err == nil, grpcStatus(err)
+			} else {
+				b, _ := proto.Marshal(ar)
+				rec := f.httpDo(httptest.NewRequest(http.MethodPut, "/ac/"+key, bytes.NewReader(b)))
+				ok, st = rec.Code == 200, fmt.Sprint(rec.Code)
+			}
+			f.settle()
+			ctx, cancel := ctxT()
+			_, gerr := f.ac.GetActionResult(ctx, &pb.GetActionResultRequest{ActionDigest: &pb.Digest{Hash: key, SizeBytes: 42}})
+			cancel()
+			id := fmt.Sprintf("mode=%s max_blob_size=%d action-cache entry of %d bytes via %s -> %s, served afterwards=%v", mode, L, n, front, st, gerr == nil)
+			k := fmt.Sprintf("C18 action-cache entry via %s size-vs-limit=%s", front, cmpClass(n, L))
+			switch {
+			case n <= L && (!ok || gerr != nil):
+				rep.Violate(k+" item within the limit refused", id, nil)
+			case n > L && ok:
+				rep.Violate(k+" oversize item accepted", id, nil)
+			case n > L && !clientErrors[st]:
+				rep.Violate(k+" oversize item refused with a non-client error", id, nil)
+			case n > L && (gerr == nil || len(f.filesFor(key)) > 0):
+				rep.Violate(k+" oversize item stored", id, nil)
+			default:
+				rep.Nontrivial(id)
+			}
+		}
+	}
 }
 
 func cmpClass(n, L int64) string {
